@@ -2598,16 +2598,26 @@ func (l *LanguageServer) getFilteredModules() (map[string]*ast.Module, error) {
 	}
 
 	allModules := l.cache.GetAllModules()
-	paths := outil.Keys(allModules)
+	workspacePath := l.workspacePath()
 
-	filtered, err := config.FilterIgnoredPaths(paths, ignore, false, l.workspaceRootURI)
-	if err != nil {
-		return nil, fmt.Errorf("failed to filter ignored paths: %w", err)
-	}
+	// ignore patterns are written against file paths, and as in ignoreURI, the
+	// URIs must be converted (decoded) before they're matched
+	modules := make(map[string]*ast.Module, len(allModules))
 
-	modules := make(map[string]*ast.Module, len(filtered))
-	for _, path := range filtered {
-		modules[path] = allModules[path]
+	for fileURI, module := range allModules {
+		kept, err := config.FilterIgnoredPaths(
+			[]string{uri.ToPath(l.clientIdentifier, fileURI)},
+			ignore,
+			false,
+			workspacePath,
+		)
+		if err != nil {
+			return nil, fmt.Errorf("failed to filter ignored paths: %w", err)
+		}
+
+		if len(kept) > 0 {
+			modules[fileURI] = module
+		}
 	}
 
 	return modules, nil
